@@ -6,6 +6,8 @@ mod error;
 pub mod js_op;
 mod op;
 mod value;
+#[cfg(feature = "verif_hooks")]
+pub mod verif_hook;
 
 use error::Error;
 use value::{Evaluated, Parsed};
